@@ -229,6 +229,7 @@ func buildDoc(r *rand.Rand, small bool) gen.Doc {
 		`.run { position: running(rn) }`,
 		`.tc::after { content: " p." target-counter(attr(href), page) " " target-text(attr(href), content) }`,
 		`.toc { margin: 0 } .fl { border: 1px solid; margin: 1px }`,
+		`.tq { quotes: "<" ">" "[" "]" } .tq::before { content: open-quote target-text(attr(href), content) " " } .tq::after { content: " p" target-counter(attr(href), page) close-quote }`,
 		`.cs1 { list-style: cs1 } .cs2 { list-style: cs2 inside } .cs3 { list-style: cs3 } .cs4 { list-style: cs4 } .roman { list-style: upper-roman } .greek { list-style: lower-greek }`,
 		`.hy { hyphens: auto; text-align: justify } .hm { hyphens: manual; text-align: justify }`,
 		`.gc1::before { content: counter(c) ". "; counter-increment: c } .gc1::after { content: " [" attr(title) "]" }`,
@@ -254,6 +255,9 @@ func buildDoc(r *rand.Rand, small bool) gen.Doc {
 	if r.Intn(3) == 0 {
 		g.css = append(g.css, `@font-face { font-family: ff1; src: `+gen.Pick(r, []string{"local(Ahem)", "url(mem://doc/missing.ttf)", "url(mem://doc/missing.ttf) format(\"truetype\"), local(weasyprint)"})+` }`)
 	}
+	if r.Intn(2) == 0 {
+		g.css = append(g.css, gen.Pick(r, []string{`p { text-indent: 2ch } td { padding: 0.5ex 1ch }`, `h2 { margin-left: 3ch } .fl { padding: 1ex }`, `li { padding-left: 1ch } p { margin-top: 0.5ex }`}))
+	}
 	if r.Intn(4) == 0 {
 		g.css = append(g.css, gen.Pick(r, []string{`p:nth-child(odd) { color: red } p::after { content: "" }`, `*::before { color: green }`, `div > p::first-line { color: gray }`, `li::marker { color: red }`}))
 	}
@@ -273,6 +277,16 @@ func buildDoc(r *rand.Rand, small bool) gen.Doc {
 			continue
 		}
 		g.section()
+	}
+	if r.Intn(2) == 0 && len(g.ids) >= 2 {
+		// a table of contents placed first: forward references whose content lists are parsed again
+		// when the targets are reached (TargetCollector.CounterLookupItems is a map); the quotes open in
+		// ::before and close in ::after, so the nesting depth depends on the order of re-parsing
+		var sb strings.Builder
+		for i := 0; i < 2+r.Intn(4); i++ {
+			fmt.Fprintf(&sb, `<li><a class="tq" href="#%s">%s</a></li>`, gen.Pick(r, g.ids), gen.Pick(r, plainWords))
+		}
+		g.body = append([]string{"<ul class=toc>" + sb.String() + "</ul>"}, g.body...)
 	}
 	meta := ""
 	if r.Intn(3) == 0 {
